@@ -4,5 +4,6 @@ CONSTANTS
   MaxSize = 6
   SiftUpOnRemove = TRUE
   MaxBulk = 3
+  Core = FALSE
 ACTION_CONSTRAINT Dump
 VIEW View
